@@ -187,6 +187,9 @@ pub struct Profile {
     pub nkeys: usize,
     /// concentrate on register conflicts: counters, increments, overwrites, deletes
     pub counter_heavy: bool,
+    /// text alphabet includes combining marks / ZWJ / variation selectors (grapheme clusters of
+    /// several code points)
+    pub combining: bool,
 }
 
 impl Profile {
@@ -204,6 +207,7 @@ impl Profile {
             max_len: 8,
             nkeys: 3,
             counter_heavy: false,
+            combining: false,
         }
     }
     pub fn graph() -> Self {
@@ -227,12 +231,15 @@ pub fn rand_scalar(rng: &mut Rng, prof: &Profile) -> J {
 
 const ASCII_TOKS: [&str; 3] = ["a", "b", "c"];
 const UNI_TOKS: [&str; 8] = ["a", "b", "eacute", "euro", "grin", "woman", "a", "b"];
+const COMB_TOKS: [&str; 8] = ["a", "e", "cacute", "woman", "zwj", "laptop", "vs16", "grin"];
 
 pub fn rand_toks(rng: &mut Rng, prof: &Profile, maxn: usize) -> Vec<String> {
     let n = 1 + rng.below(maxn.max(1));
     (0..n)
         .map(|_| {
-            if prof.unicode {
+            if prof.combining {
+                COMB_TOKS[rng.below(COMB_TOKS.len())].to_string()
+            } else if prof.unicode {
                 UNI_TOKS[rng.below(UNI_TOKS.len())].to_string()
             } else {
                 ASCII_TOKS[rng.below(ASCII_TOKS.len())].to_string()
@@ -293,6 +300,8 @@ pub fn gen(rng: &mut Rng, view: &J, prof: &Profile) -> J {
             (_, 3) => json!({"fn":"splice_text","obj":id,"idx":rng.below(len + 3),"del":(rng.below(len + 3)) as i64,"toks":[]}),
             (_, 4) => json!({"fn":"put","obj":id,"key":"k1","val":v}),
             (_, 5) => json!({"fn":"delete","obj":id,"idx":bad_idx}),
+            (_, 6) if prof.marks => json!({"fn":"mark","obj":id,"start":rng.below(len + 1),"end":len + 1 + rng.below(3),"name":"bold","val":v,"expand":"both"}),
+            (_, 7) if prof.marks && len > 1 => json!({"fn":"mark","obj":id,"start":1 + rng.below(len),"end":0,"name":"bold","val":v,"expand":"none"}),
             (_, _) => json!({"fn":"increment","obj":id,"idx":rng.below(len + 1),"by":1}),
         };
     }
@@ -361,9 +370,26 @@ pub fn gen(rng: &mut Rng, view: &J, prof: &Profile) -> J {
             let len = o["len"].as_u64().unwrap_or(0) as usize;
             let full = len >= prof.max_len;
             let c = rng.below(10);
-            if prof.marks && len > 0 && c >= 8 {
-                let s = rng.below(len);
-                let e = s + 1 + rng.below(len - s);
+            // element boundaries (unit indexes at which an element starts), when the rich
+            // projection tells us; otherwise every unit index
+            let mut starts: Vec<usize> = vec![];
+            if let Some(cs) = o.get("curs").and_then(|c| c.as_array()) {
+                for i in 0..cs.len() {
+                    if i == 0 || cs[i]["a"] != cs[i - 1]["a"] {
+                        starts.push(i);
+                    }
+                }
+            } else {
+                starts = (0..len).collect();
+            }
+            starts.push(len);
+            let aligned = |rng: &mut Rng, lo: usize| -> usize {
+                let c: Vec<usize> = starts.iter().cloned().filter(|x| *x >= lo).collect();
+                if c.is_empty() || rng.chance(1, 8) { lo + rng.below(len + 1 - lo.min(len)) } else { c[rng.below(c.len())] }
+            };
+            if prof.marks && len > 0 && c >= 7 {
+                let s = aligned(rng, 0).min(len - 1);
+                let e = aligned(rng, s + 1).max(s + 1).min(len);
                 let name = ["bold", "link"][rng.below(2)];
                 let expand = ["both", "none", "before", "after"][rng.below(4)];
                 if rng.chance(1, 4) {
@@ -373,8 +399,8 @@ pub fn gen(rng: &mut Rng, view: &J, prof: &Profile) -> J {
                     json!({"fn":"mark","obj":id,"start":s,"end":e,"name":name,"val":val,"expand":expand})
                 }
             } else {
-                let idx = rng.below(len + 1);
-                let del = if len > idx && rng.chance(1, 3) { 1 + rng.below((len - idx).min(2)) as i64 } else { 0 };
+                let idx = aligned(rng, 0).min(len);
+                let del = if len > idx && rng.chance(1, 3) { (aligned(rng, idx + 1).min(len) - idx).min(3) as i64 } else { 0 };
                 let toks = if full || (del > 0 && rng.chance(1, 2)) { vec![] } else { rand_toks(rng, prof, 3) };
                 json!({"fn":"splice_text","obj":id,"idx":idx,"del":del,"toks":toks})
             }
